@@ -158,10 +158,58 @@ def run(ctx):
                                     pass
                             vin = data_names(n.value) - {kname}
                             # names in the value that are themselves pure functions of key names are fine
-                            derived = set()
+                            # inputs of every local: values assigned to it, values / indices stored into it, and the conditions (if tests, loop iterables, with
+                            # items) under which those statements run -- a table filled under `if x in elements` depends on `elements`
+                            inputs = {}
                             for st in ast.walk(f):
-                                if isinstance(st, ast.Assign) and isinstance(st.targets[0], ast.Name) and data_names(st.value) <= kin | derived and st.targets[0].id != kname:
-                                    derived.add(st.targets[0].id)
+                                tgts = []
+                                if isinstance(st, ast.Assign):
+                                    tgts, val_ = st.targets, st.value
+                                elif isinstance(st, ast.AugAssign):
+                                    tgts, val_ = [st.target], st.value
+                                else:
+                                    continue
+                                ctl = set()
+                                cur_ = m.parents.get(st)
+                                while cur_ is not None and cur_ is not f:
+                                    if isinstance(cur_, (ast.If, ast.While)):
+                                        ctl |= data_names(cur_.test)
+                                    elif isinstance(cur_, ast.For):
+                                        ctl |= data_names(cur_.iter)
+                                    elif isinstance(cur_, ast.With):
+                                        for it_ in cur_.items:
+                                            ctl |= data_names(it_.context_expr)
+                                    cur_ = m.parents.get(cur_)
+                                for t_ in tgts:
+                                    for e_ in (t_.elts if isinstance(t_, ast.Tuple) else [t_]):
+                                        b_ = e_
+                                        idx_ = set()
+                                        while isinstance(b_, (ast.Subscript, ast.Attribute)):
+                                            if isinstance(b_, ast.Subscript):
+                                                idx_ |= data_names(b_.slice)
+                                            b_ = b_.value
+                                        if isinstance(b_, ast.Name) and b_.id != kname:
+                                            inputs.setdefault(b_.id, set()).update(data_names(val_) | ctl | idx_)
+                            # loop / with targets take their iterable as input
+                            for st in ast.walk(f):
+                                if isinstance(st, ast.For):
+                                    for x_ in ast.walk(st.target):
+                                        if isinstance(x_, ast.Name):
+                                            inputs.setdefault(x_.id, set()).update(data_names(st.iter))
+                                elif isinstance(st, ast.With):
+                                    for it_ in st.items:
+                                        if it_.optional_vars is not None:
+                                            for x_ in ast.walk(it_.optional_vars):
+                                                if isinstance(x_, ast.Name):
+                                                    inputs.setdefault(x_.id, set()).update(data_names(it_.context_expr))
+                            derived = set()
+                            grew = True
+                            while grew:
+                                grew = False
+                                for nm_, ins_ in inputs.items():
+                                    if nm_ not in derived and (ins_ - {nm_}) <= kin | derived:
+                                        derived.add(nm_)
+                                        grew = True
                             missing = vin - kin - derived
                             ok = not missing
                             why = f"stored value depends on {sorted(missing)} which is not part of the key `{norm(kdefs[0].value)}`"
